@@ -91,6 +91,10 @@ def main():
     except ToolError as e:
         log(f"TOOL ERROR [{a.prop}]: {e}")
         return 2
+    except Exception:      # a defect of the machinery is never reported as a violation (exit 1 is reserved for VIOLATION lines)
+        import traceback
+        log(f"TOOL ERROR [{a.prop}]: unexpected exception in the checker\n" + traceback.format_exc())
+        return 2
     finally:
         ctx.cleanup()
 
